@@ -278,11 +278,23 @@ fn gen_history_impl(rng: &mut Rng, doc: &[u8], tree: Option<&Wire>, n: usize, po
     let mut mirror: Vec<Option<&Wire>> = vec![];
     let mut parent: Vec<Option<(usize, usize)>> = vec![];    // (scope answer, index) an answer was obtained from
     let mut last_container: Option<usize> = None;
+    // in-order depth-first traversal of one container (what a typed Deserialize does), then the NEXT SIBLING of that container
+    let mut dfs: Vec<(usize, usize, usize)> = vec![];     // (scope answer, next child, length)
+    let mut dfs_root: Option<usize> = None;
     for step in 0..n {
         let containers: Vec<usize> = obs.iter().enumerate().filter(|(_, o)| o.starts_with("VAL ARR") || o.starts_with("VAL OBJ")).map(|(i, _)| i).collect();
         let vals: Vec<usize> = obs.iter().enumerate().filter(|(_, o)| o.starts_with("VAL")).map(|(i, _)| i).collect();
         let strs: Vec<usize> = obs.iter().enumerate().filter(|(_, o)| o.starts_with("VAL STR")).map(|(i, _)| i).collect();
-        let op = if step < prelude.len() { prelude[step].clone() } else if step == 0 || vals.is_empty() || rng.chance(6) { Op::Root }
+        while let Some(&(_, nx, l)) = dfs.last() { if nx >= l { dfs.pop(); } else { break; } }
+        if step >= prelude.len() && dfs.is_empty() && dfs_root.is_none() && !containers.is_empty() && rng.chance(7) {
+            let k = if rng.chance(60) { containers[containers.len() - 1 - rng.below(containers.len().min(4) as u64) as usize] } else { *rng.pick(&containers) };
+            let l: usize = obs[k].split_whitespace().nth(2).and_then(|x| x.parse().ok()).unwrap_or(0);
+            if l >= 1 && l <= 10 { dfs.push((k, 0, l)); dfs_root = Some(k); }
+        }
+        let op = if step < prelude.len() { prelude[step].clone() }
+        else if let Some(top) = dfs.last_mut() { let (k, i, _) = *top; top.1 += 1; Op::Idx(Sc::Ans(k), i) }
+        else if let Some(rt) = dfs_root.take() { match parent[rt] { Some((p, i)) => Op::Idx(Sc::Ans(p), i + 1), None => Op::Root } }
+        else if step == 0 || vals.is_empty() || rng.chance(6) { Op::Root }
         // revisit an OLD string handle (oldest ones preferred): its bytes must not depend on what was read since
         else if !strs.is_empty() && rng.chance(12) { let k = if rng.chance(50) { strs[rng.below(strs.len().min(4) as u64) as usize] } else { *rng.pick(&strs) }; if rng.chance(80) { Op::Str(Sc::Ans(k)) } else { Op::Len(Sc::Ans(k)) } }
         else {
@@ -323,6 +335,10 @@ fn gen_history_impl(rng: &mut Rng, doc: &[u8], tree: Option<&Wire>, n: usize, po
             _ => (None, None),
         };
         if o.starts_with("VAL ARR") || o.starts_with("VAL OBJ") { last_container = Some(obs.len()); }
+        if dfs_root.is_some() && !dfs.is_empty() && dfs.len() < 4 && (o.starts_with("VAL ARR") || o.starts_with("VAL OBJ")) {
+            let l: usize = o.split_whitespace().nth(2).and_then(|x| x.parse().ok()).unwrap_or(0);
+            if l >= 1 && l <= 6 { dfs.push((obs.len(), 0, l)); }
+        }
         mirror.push(m); parent.push(p);
         ops.push(op); obs.push(o);
     }
